@@ -22,6 +22,7 @@ type c04Case struct {
 	ConstETag bool      `json:"constant_etag_large_body"`
 	SMax      bool      `json:"lifetime_from_s_maxage"`
 	Head      bool      `json:"head_requests_interleaved"`
+	DateSkew  int       `json:"origin_date_skew_seconds"`
 	URI       string    `json:"uri"`
 	T         int64     `json:"T"`
 	Age       string    `json:"origin_age"`
@@ -47,6 +48,7 @@ func c04Gen(rnd *rand.Rand, i int) c04Case {
 	c.SMax = rnd.Intn(3) == 0
 	c.ConstETag = rnd.Intn(3) == 0
 	c.Head = rnd.Intn(3) == 0
+	c.DateSkew = []int{0, 0, 0, 45, -45, 86400}[rnd.Intn(6)]
 	l := ans{Kind: "cacheable", T: t, Age: c.Age}.lifetime()
 	n := 6 + rnd.Intn(10)
 	for j := 0; j < n; j++ {
@@ -69,7 +71,7 @@ type c04Target struct {
 }
 
 func c04RunCase(r *hx.Run, w *W, ps *plans, c c04Case, tg c04Target, rnd *rand.Rand) {
-	a := ans{Kind: "cacheable", T: c.T, Age: c.Age, SMax: c.SMax}
+	a := ans{Kind: "cacheable", T: c.T, Age: c.Age, SMax: c.SMax, DateSkew: c.DateSkew}
 	if c.ConstETag {
 		// a weak validator that does not change although the content does, on a compressible body
 		a.ETag, a.Size = `W/"same"`, 1800
@@ -341,7 +343,7 @@ func c04Concurrent(r *hx.Run, w *W, ps *plans, rnd *rand.Rand, tickPerRead bool)
 }
 
 func c04(r *hx.Run) {
-	r.Rule = "sequential: generated histories (one in three with HEAD requests on the same URI interleaved - their own key, entry and lifetime; T from {1,2,3,5,10,60,3600,86400,2^31-1}, origin Age none/0/1/T-1, 6-15 steps of (advance d in {0,1,L-1,L,L+1,2L+3,L/2}, concurrent burst of 1-8) with the clock moved only at quiescence, replayed against the entry model (a hit must be the current version inside its lifetime with the right Age, an expired entry must be refetched exactly once and replaced; a premature refetch is only counted - that is single flight, C01); directed: clock tick between lookup and Age(); concurrent: 16 clients under a ticking virtual clock judged by interval-sound bounds. Non-trivial = history with >=2 epochs that probed the exact expiry second or the one after; distinct = case spec."
+	r.Rule = "sequential: generated histories (one in three with HEAD requests on the same URI interleaved - their own key, entry and lifetime; half of them from an origin whose own Date header is 45 s or a day away from the real clock; T from {1,2,3,5,10,60,3600,86400,2^31-1}, origin Age none/0/1/T-1, 6-15 steps of (advance d in {0,1,L-1,L,L+1,2L+3,L/2}, concurrent burst of 1-8) with the clock moved only at quiescence, replayed against the entry model (a hit must be the current version inside its lifetime with the right Age, an expired entry must be refetched exactly once and replaced; a premature refetch is only counted - that is single flight, C01); directed: clock tick between lookup and Age(); concurrent: 16 clients under a ticking virtual clock judged by interval-sound bounds. Non-trivial = history with >=2 epochs that probed the exact expiry second or the one after; distinct = case spec."
 	r.Assume = []string{"time is pike's only clock seam cache.nowUnix, replaced by a virtual clock (hook)", "memory-only and store targets: no eviction (cache 100000 >> keys); the tiny-cache target evicts on purpose and relies on its (reliable, TTL-ignoring) in-memory store, so a fresh entry is still a hit after reload"}
 	rnd := rand.New(rand.NewSource(r.Seed))
 	ports := hx.FreePorts(3)
